@@ -70,3 +70,242 @@ def pure_unit(prop, fn, contract, doms, case='', contracts=None, extra_inline=()
     opts = {'contracts': contracts if contracts is not None else {}, 'inline': {fn} | set(extra_inline),
             'merge_calls': set(merge_calls)}
     return Unit(uid, [prop], symbolic, replay, opts, meta={'function': qn, 'case': case}, xcheck=xcheck)
+
+
+# ---------------------------------------------------------------------------------------------------------
+# methods of Registers / ArmV6 against a state-transformer spec or against their own sidecar contract
+
+def method_unit(prop, fn, doms, on='regs', spec=None, contract=None, contracts=None, case='', memarch='PMSA', nregions=1,
+                assume=None, merge_calls=(), fixed=None, extra_inline=(), label=None, compare_unpred=True, mem=False,
+                ignore=(), max_paths=20000, spec_args=None):
+    """Verify the body of a method of Registers (on='regs') or ArmV6 (on='cpu') over an arbitrary ValidState.
+
+    spec(st, *args) -> (result, unpredictable, raises)  st is the dict of initial leaves and is updated in place
+         (raises: None or an exception class the body must raise)            -- or --
+    contract: the sidecar Contract used at call sites; it is run on a second copy of the same symbolic state.
+    Obligations: result, every leaf of the final state (frame included), UNPREDICTABLE flag, raised class."""
+    from . import machine as MC
+    from contracts import absmem as AM
+    qn = '%s.%s' % (fn.__module__, fn.__qualname__)
+    uid = '%s/fn:%s%s' % (prop, qn, '[%s]' % case if case else '')
+
+    def build(eng):
+        memobj = AM.AbsMem(eng) if mem else None
+        mach = MC.SymMachine(eng, memarch, nregions, fixed=fixed, mem=memobj)
+        return mach
+
+    def symbolic(eng):
+        a = build(eng)
+        args = [d.fresh(eng, n) for n, d in doms]
+        init = dict(a.init)
+        if assume is not None:
+            eng.assume(assume(init, *args))
+        if not eng.prefix:
+            eng.cover('%s: state and arguments satisfiable' % qn)
+        target = a.regs if on == 'regs' else a.cpu
+        raised = None
+        r1 = None
+        try:
+            r1 = eng.call(fn, [target] + args)
+        except PyRaise as e:
+            raised = e.exc.cls
+        u1 = eng.path.unpred
+        fin = a.read()
+        if a.mem is not None:
+            fin['mem'] = a.mem.term
+        # ---- expected
+        if spec is not None:
+            st = dict(init)
+            if a.mem is not None:
+                st['mem'] = a.mem.init
+            exp_r, u2, exp_raise = spec(st, *(spec_args(args) if spec_args else args))
+        else:
+            eng.path.unpred = False
+            b = build(eng)
+            tb = b.regs if on == 'regs' else b.cpu
+            exp_raise = None
+            exp_r = None
+            saved = eng.inline
+            eng.inline = set()
+            try:
+                try:
+                    exp_r = contract(eng, tb, *args)
+                except PyRaise as e:
+                    exp_raise = e.exc.cls
+            finally:
+                eng.inline = saved
+            u2 = eng.path.unpred
+            st = b.read()
+            if b.mem is not None:
+                st['mem'] = b.mem.term
+        lab = label or fn.__name__
+        if raised is not None or exp_raise is not None:
+            ok = raised is not None and exp_raise is not None and issubclass(raised, exp_raise)
+            eng.oblige('raises', '%s: raises %s (spec: %s)' % (lab, getattr(raised, '__name__', None), getattr(exp_raise, '__name__', None)), ok)
+            if raised is not None and not ok and issubclass(raised, HOST):
+                pass
+            if not ok:
+                return
+        dc = u2 if compare_unpred else sym.lor(u1, u2)
+        if raised is None:
+            eng.oblige('post', '%s: result == spec' % lab, sym.lor(dc, values_eq(r1, exp_r)))
+        named = []
+        for k, v in fin.items():
+            if k in ignore:
+                continue
+            e = st.get(k)
+            if k == 'mem':
+                named.append((k, sym.lor(dc, sym.SymBool(v == e))))
+            elif e is UNKNOWN:
+                continue
+            else:
+                named.append((k, sym.lor(dc, values_eq(v, e))))
+        eng.oblige_all('post', '%s: final state == spec (all leaves; frame)' % lab, named)
+        if compare_unpred:
+            eng.oblige('contract.unpred' if spec is None else 'post', '%s: UNPREDICTABLE flagged exactly when the spec says' % lab, sym.eq(sym.truth(u1), sym.truth(u2)))
+        eng.oblige('frame', '%s: object graph shape unchanged' % lab, a.shape_ok())
+        return None
+
+    def replay(inputs, ob):
+        from . import machine as MC2
+        from contracts import registry
+        cpu = MC2.native_cpu(memarch, nregions, fresh=True)
+        ins = dict(inputs)
+        if fixed:
+            for k, f in fixed.items():
+                if not callable(f):
+                    ins[k] = f
+        MC2.install_native(cpu, ins, memarch, nregions)
+        if fixed and getattr(method_unit, '_fix_native', None):
+            pass
+        init = MC2.read_native(cpu, memarch, nregions)
+        for k, v in ins.items():
+            if k.startswith('cfg.'):
+                init[k] = (v + 4 if k == 'cfg.arch_version' else v)
+        for k in MC2.CFG_BOOL:
+            init.setdefault('cfg.' + k, registry.mods().configurations.configurations.configs.get(k))
+        for k in MC2.CFG_INT:
+            init.setdefault('cfg.' + k, registry.mods().configurations.configurations.configs.get(k))
+        args = [d.concrete(ins, n) for n, d in doms]
+        target = cpu.registers if on == 'regs' else cpu
+        lines = ['%s(%s)  mode=%s cpsr=%s' % (qn, ', '.join(fmt(a) for a in args), hex(init['cpsr'] & 0x1F), hex(init['cpsr']))]
+        lines.append('config: %s' % {k[4:]: v for k, v in init.items() if k.startswith('cfg.') and v})
+        import io
+        import contextlib
+        buf = io.StringIO()
+        raised = None
+        r1 = None
+        try:
+            with contextlib.redirect_stdout(buf):
+                r1 = fn(target, *args)
+        except Exception as e:      # noqa
+            raised = e
+        u1 = 'unpredictable' in buf.getvalue()
+        fin = MC2.read_native(cpu, memarch, nregions)
+        if spec is None:
+            # run the sidecar contract natively on a concrete mirror of the same state
+            neng = NativeEng(ins)
+            b = MC2.SymMachine(neng, memarch, nregions, fixed=fixed)
+            tb = b.regs if on == 'regs' else b.cpu
+            exp_raise = None
+            exp_r = None
+            try:
+                exp_r = contract(neng, tb, *args)
+            except NativeRaise as e:
+                exp_raise = e.cls
+            u2 = bool(neng.path.unpred)
+            st = b.read()
+        else:
+            st = dict(init)
+            exp_r, u2, exp_raise = spec(st, *(spec_args(args) if spec_args else args))
+        lines.append('real: result %s%s unpredictable=%s' % (fmt(r1), ' raised %r' % raised if raised else '', u1))
+        lines.append('spec: result %s%s unpredictable=%s' % (fmt(exp_r), ' raises %s' % exp_raise.__name__ if exp_raise else '', bool(u2)))
+        bad = False
+        if (raised is not None) != (exp_raise is not None):
+            bad = True
+        elif raised is None and not u2:
+            if not native_eq(r1, exp_r):
+                bad = True
+        diffs = {}
+        if not u2 and not exp_raise:
+            for k, v in fin.items():
+                if k in ignore or st.get(k) is UNKNOWN:
+                    continue
+                if v != st.get(k):
+                    diffs[k] = (fmt(v), fmt(st.get(k)))
+            if diffs:
+                bad = True
+        if compare_unpred and bool(u1) != bool(u2) and raised is None:
+            bad = True
+        lines.append('leaf differences (real, spec): %s' % diffs)
+        return bad, '\n'.join(lines)
+
+    opts = {'contracts': contracts if contracts is not None else {}, 'inline': {fn} | set(extra_inline),
+            'merge_calls': set(merge_calls), 'max_paths': max_paths}
+    return Unit(uid, [prop], symbolic, replay, opts, meta={'function': qn, 'case': case})
+
+
+class NativeRaise(Exception):
+    def __init__(self, cls):
+        Exception.__init__(self, cls.__name__)
+        self.cls = cls
+
+
+class _NPath:
+    def __init__(self):
+        self.unpred = False
+        self.pc = []
+
+
+class NativeEng:
+    """Just enough of the engine interface to run sidecar contracts on concrete values (replays)."""
+
+    def __init__(self, inputs):
+        self.inputs = inputs
+        self.path = _NPath()
+        self.subst = {}
+        self.cfg = {}
+        self.prefix = []
+        self.inline = set()
+
+    def fresh_int(self, name, bits, hi=None):
+        return int(self.inputs.get(name, 0))
+
+    def fresh_bool(self, name):
+        return bool(self.inputs.get(name, False))
+
+    def register(self, o):
+        return o
+
+    def new_obj(self, cls, attrs=None, tag=None):
+        from pyvc.interp import Obj
+        return Obj(cls, attrs, tag)
+
+    def host_check(self, ok, cls, msg):
+        if not ok:
+            raise NativeRaise(cls)
+
+    def istrue(self, x):
+        return bool(x)
+
+    def wrote(self):
+        pass
+
+    def assume(self, c):
+        pass
+
+    def oblige(self, *a, **k):
+        return None
+
+    def mark_unpred(self):
+        self.path.unpred = True
+
+
+class _Unknown:
+    def __repr__(self):
+        return 'UNKNOWN'
+
+
+UNKNOWN = _Unknown()
+HOST = (AttributeError, TypeError, IndexError, KeyError, AssertionError, UnboundLocalError, NameError, ValueError,
+        ZeroDivisionError)
